@@ -87,6 +87,13 @@ def cases(tier, seed, shard, nshards):
         yield corner_case(rng)
     for i in range(max(6, N_SIM[tier] // 10)):
         yield _sim.preemption_case(rng, algo=rng.choice(["priority", "priority", "priority-pool"]), oom=rng.random() < 0.5)
+    # scale cases (latent faults): one per shard in the quick tier, all of them in the thorough tier
+    _kinds = ["storm", "many-small:naive", "many-small:priority", "many-small:priority-pool", "many-small:overbook", "many-small:vtemplate",
+              "crowd:priority", "crowd:naive", "crowd:overbook", "fail-sibs", "crowd:vtemplate", "many-small:priority"]
+    for _j, _kd in enumerate(_kinds):
+        if tier == "thorough" or _j == shard:
+            _k, _, _a = _kd.partition(":")
+            yield _sim.scale_case(rng, _k, algo=_a or None)
     for i in range(2):
         c = corner_case(rng)
         c["_cli_init"] = True
